@@ -15,6 +15,16 @@
 // client's id lands in the request buffer that held the previous client's id, so whatever the
 // session code keeps beyond a request without copying (storage keys, ...) gets rewritten.
 //
+// Compound requests: besides the one-API-call-per-request letters, user A has requests whose
+// handler performs SEVERAL API calls - every ordered pair (thorough: also every ordered triple)
+// of {Get, Set, Delete, Destroy, Regenerate, Reset, Save} through the middleware API and through
+// the store API, with ID/Fresh/Keys/Get read back after each call - in particular writes after
+// Destroy / Reset / Regenerate. The compound families enumerate every history of at most 3
+// requests in which exactly one request is compound and the others (before and after, by A, B,
+// M and the administrator) are one-call requests; the worker is single-threaded, so the
+// *Session object one request gives back to the pool is the one the next request draws
+// (counted: av_session_object_of_other_client_drawn).
+//
 //	part 1 (both tiers)  exhaustive: every history over a family's alphabet up to its depth
 //	part 2               breadth-first search with state de-duplication over the full alphabet
 package main
@@ -47,6 +57,7 @@ func families(quick bool) []Family {
 			{Name: "full-d3", Ops: fullAlphabet(), Depth: 3, Symmetric: true},
 			{Name: "core-d4", Ops: coreOps(), Depth: 4, Ctx: ctxSharedAbsOff},
 			{Name: "timing-d5", Ops: timingOps(), Depth: 5, AbsOnly: true, Ctx: ctxFresh},
+			{Name: "compound2-d3", Ops: contextOps(), Compound: compoundOps(2), Depth: 3, Ctx: ctxSharedAbsOff},
 		}
 	}
 	return []Family{
@@ -54,6 +65,8 @@ func families(quick bool) []Family {
 		{Name: "core-d4", Ops: coreOps(), Depth: 4},
 		{Name: "small-d5", Ops: smallOps(), Depth: 5, Ctx: ctxSharedAbsOff},
 		{Name: "timing-d6", Ops: timingOps(), Depth: 6, AbsOnly: true, Ctx: ctxFresh},
+		{Name: "compound2-d3", Ops: contextOps(), Compound: compoundOps(2), Depth: 3},
+		{Name: "compound3-d3", Ops: contextOps(), Compound: compoundOps(3), Depth: 3, Ctx: ctxSharedAbsOff},
 	}
 }
 
@@ -123,6 +136,26 @@ func runHistory(cfg Cfg, hist []int, l *core.Local) result {
 
 // count feeds the anti-vacuity counters.
 func count(l *core.Local, op Op, o *obsT, info stepInfo) {
+	if o != nil {
+		switch o.SessObj {
+		case "reused:other-client":
+			l.Add("av_session_object_of_other_client_drawn", 1)
+			if o.Pre != nil && len(o.Pre.Data) > 0 {
+				l.Add("av_session_object_of_other_client_drawn_by_resumed_session_with_data", 1)
+			}
+		case "reused:same-client":
+			l.Add("av_session_object_of_same_client_drawn", 1)
+		case "new":
+			l.Add("av_session_object_new", 1)
+		}
+		if o.drewPrev {
+			l.Add("av_session_object_of_previous_request_drawn", 1)
+		}
+	}
+	if op.Act == "seq" {
+		l.Add("av_compound_requests", 1)
+		l.Add("av_compound_"+op.API+"_"+seqClass(op.Seq), 1)
+	}
 	switch {
 	case strings.HasPrefix(info.Outcome, "live->resumed"):
 		l.Add("av_live_session_resumed", 1)
@@ -155,6 +188,25 @@ func record(l *core.Local, cfg Cfg, hist []int, res result) {
 			onFresh = "violates too"
 		}
 	}
+	// histories with a compound request: name what that request did (class, not the exact calls)
+	// (coarse class, not the exact calls) - unless the history violates without that request too
+	withoutCompound := ""
+	for i, x := range hist[:res.At+1] {
+		if op := alphabet[x]; op.Act == "seq" {
+			rest := append(append([]int(nil), hist[:i]...), hist[i+1:res.At+1]...)
+			if r2 := runHistory(cfg, rest, core.NewLocal()); len(rest) > 0 && r2.Viol != nil {
+				withoutCompound = "violates too"
+				break
+			}
+			withoutCompound = "passes"
+			cl := seqClass(op.Seq)
+			if !strings.HasPrefix(cl, "write-after-") {
+				cl = "multi-call"
+			}
+			sig += " after-compound=" + op.API + ":" + cl
+			break
+		}
+	}
 	cs := map[string]any{
 		"config":  cfg.String(),
 		"history": strings.Join(opNames(hist[:res.At+1]), ","),
@@ -166,6 +218,7 @@ func record(l *core.Local, cfg Cfg, hist []int, res result) {
 		}()},
 		"trace":                              res.Trace,
 		"same_history_on_fresh_request_ctxs": onFresh,
+		"same_history_without_the_compound_request": withoutCompound,
 		"replay":                             fmt.Sprintf("C15_DEBUG='%s;%s' ./check C15 quick", cfgSpec(cfg), strings.Join(opNames(hist[:res.At+1]), ",")),
 	}
 	l.Violate(sig, v.What, cs, v.Observed, v.Expected)
@@ -195,7 +248,7 @@ func workItems(fams []Family) []workItem {
 			if !f.applies(c) {
 				continue
 			}
-			for _, op := range f.Ops {
+			for _, op := range f.letters() {
 				out = append(out, workItem{fi, c, op})
 			}
 		}
@@ -227,6 +280,10 @@ func housekeeping() {
 }
 
 func dfs(r *core.Run, f Family, cfg Cfg, hist []int, seenUser bool, l *core.Local) {
+	if f.Compound != nil {
+		dfsCompound(f, cfg, hist, l)
+		return
+	}
 	last := alphabet[hist[len(hist)-1]]
 	if f.Symmetric && !seenUser {
 		// A and B are interchangeable: the first user a history involves is A
@@ -264,6 +321,51 @@ func dfs(r *core.Run, f Family, cfg Cfg, hist []int, seenUser bool, l *core.Loca
 	l.Add("nodes_expanded", 1)
 	for _, op := range f.Ops {
 		dfs(r, f, cfg, append(hist, op), seenUser, l)
+	}
+}
+
+// dfsCompound: every history of at most f.Depth requests with exactly one compound request.
+func dfsCompound(f Family, cfg Cfg, hist []int, l *core.Local) {
+	has := false
+	for _, x := range hist {
+		if alphabet[x].Act == "seq" {
+			has = true
+		}
+	}
+	if has {
+		housekeeping()
+		res := runHistory(cfg, hist, l)
+		l.Add("histories", 1)
+		l.Add("compound_histories", 1)
+		if res.NA {
+			l.Add("not_applicable", 1)
+			return
+		}
+		if res.Viol != nil {
+			record(l, cfg, hist, res)
+			return
+		}
+		if len(hist) == f.Depth {
+			l.Add("full_depth_histories", 1)
+			if l.P.Counters["full_depth_histories"]%49999 == 4999 {
+				l.Sample(f.Name + " " + cfg.String() + ": " + strings.Join(opNames(hist), ","))
+			}
+		}
+	}
+	if len(hist) >= f.Depth {
+		return
+	}
+	l.Add("nodes_expanded", 1)
+	if !has {
+		for _, op := range f.Compound {
+			dfsCompound(f, cfg, append(hist, op), l)
+		}
+		if len(hist) == f.Depth-1 {
+			return // a one-call request here would leave no room for the compound one
+		}
+	}
+	for _, op := range f.Ops {
+		dfsCompound(f, cfg, append(hist, op), l)
 	}
 }
 
@@ -317,7 +419,9 @@ func main() {
 		r.Violate("worker-crashed", "a worker process died (fatal runtime error or kill)", c, nil, nil)
 	}
 	c := r.P.Counters
-	for _, k := range []string{"av_live_session_resumed", "av_resumed_with_data", "av_forged_id_presented", "av_idle_expired_id_presented", "av_abs_expired_id_presented", "av_ended_id_presented", "av_request_on_reused_ctx", "av_reused_ctx_other_id_same_length"} {
+	for _, k := range []string{"av_live_session_resumed", "av_resumed_with_data", "av_forged_id_presented", "av_idle_expired_id_presented", "av_abs_expired_id_presented", "av_ended_id_presented", "av_request_on_reused_ctx", "av_reused_ctx_other_id_same_length",
+		"av_compound_requests", "av_compound_mw_write-after-destroy", "av_compound_st_write-after-destroy", "av_compound_mw_write-after-reset", "av_compound_mw_write-after-regenerate",
+		"av_session_object_of_previous_request_drawn", "av_session_object_of_other_client_drawn", "av_session_object_of_other_client_drawn_by_resumed_session_with_data"} {
 		if c[k] == 0 && len(r.P.Violations) == 0 {
 			core.Fatal("vacuous: counter %s is zero", k)
 		}
@@ -332,7 +436,14 @@ func main() {
 		if f.Ctx != "" {
 			cf += ", " + f.Ctx
 		}
-		famDesc = append(famDesc, map[string]any{"name": f.Name, "depth": f.Depth, "alphabet_size": len(f.Ops), "alphabet": opNames(f.Ops), "configurations": cf, "user_symmetry_reduction": f.Symmetric})
+		d := map[string]any{"name": f.Name, "depth": f.Depth, "alphabet_size": len(f.Ops), "alphabet": opNames(f.Ops), "configurations": cf, "user_symmetry_reduction": f.Symmetric}
+		if f.Compound != nil {
+			d["compound_requests"] = len(f.Compound)
+			d["compound_request_calls"] = len(alphabet[f.Compound[0]].Seq)
+			d["compound_request_letters"] = seqName(seqLetters)
+			d["shape"] = "exactly one compound request per history (any position), the other requests from `alphabet`"
+		}
+		famDesc = append(famDesc, d)
 	}
 	cov := map[string]any{
 		"states":                        c["histories"] - c["bfs_histories"] + bfs.States,
@@ -352,6 +463,8 @@ func main() {
 			"exhaustive_depths":  famDesc,
 			"dedup_search_depth": bfs.MaxDepth,
 			"key_generator":      "counter s1, s2, ...",
+			"compound_requests":  "user A, middleware API and store API: every ordered pair (thorough: and triple) of {" + seqName(seqLetters) + "} performed by ONE request's handler, ID/Fresh/Keys/Get read back after each call; store-API sequences persist only where they say save; histories of <= 3 requests with exactly one compound request",
+			"session_pool":       "single-threaded worker, pools emptied before each history: the *Session a request releases is the one the next request draws; counters av_session_object_* measure how often a request was handed an object another client used before",
 		},
 		"rule": "states = history-tree nodes replayed in the exhaustive part + distinct canonical states of the de-duplicating search; a transition = one executed and judged request; every history is a complete real execution on a fresh app compared step by step with the reference model",
 	}
@@ -361,6 +474,7 @@ func main() {
 			"histories are sequential (one request at a time); concurrency inside the session package is not explored here",
 			"each history starts from empty session pools (VerifResetPools) in a GOMAXPROCS=1 process with the collector off during the history, so pool reuse inside a history is deterministic",
 			"shared RequestCtx: requests are handed to app.Handler() on one fasthttp.RequestCtx that is reset (user values, Request, Response) between requests exactly as fasthttp's serveConn / ctx pool do; the bytes left in its buffers are not part of the canonical state key",
+			"a session object after Destroy: what the same request reads back from it, and what a store-API Save after Destroy persists under the ids that object carried, is unspecified (statement and docs are silent) and follows the implementation; no other id may be affected",
 			"de-duplicating search: two histories that reach the same canonical key (model state, decoded storage contents, client ids, pooled Session/Middleware digest; ids renamed, times relative, A<->B swapped) are assumed to have the same futures",
 			"exactly on a deadline, and between the old and a restarted absolute deadline after Regenerate/Reset, either behaviour is accepted and the model follows the implementation",
 		}})
@@ -388,7 +502,7 @@ func debugHistory(spec string) {
 	parts := strings.SplitN(spec, ";", 2)
 	f := strings.Split(parts[0], ",")
 	if len(parts) != 2 || (len(f) != 3 && len(f) != 4) {
-		core.Fatal("C15_DEBUG=source,storage,on|off[,fresh|shared];op,op,...  ops: %s", strings.Join(opNames(fullAlphabet()), " "))
+		core.Fatal("C15_DEBUG=source,storage,on|off[,fresh|shared];op,op,...  ops: %s\ncompound (user A): A.mw.seq.<call>+<call>[+<call>] / A.st.seq.... with calls %s", strings.Join(opNames(fullAlphabet()), " "), strings.ReplaceAll(seqName(seqLetters), "+", " "))
 	}
 	cfg := Cfg{f[0], f[1], f[2] == "on", "fresh"}
 	if len(f) == 4 {
